@@ -60,11 +60,30 @@ Theorem C20_calls_frames_decode : forall ver phone cs k cmd body,
 Proof. exact calls_frames_decode. Qed.
 Print Assumptions C20_calls_frames_decode.
 
-(* ... which is one greater than the serial of the previous frame, 65535 being followed by 0 *)
-Theorem C20_serial_progression : forall k,
-  N.of_nat (S (S k)) mod 65536 = (N.of_nat (S k) mod 65536 + 1) mod 65536.
-Proof. exact serial_progression. Qed.
+(* serial progression, on the frames: of any two consecutive frames PRODUCED by any call sequence the
+   second decodes with a serial one greater than the first, 65535 being followed by 0; the first
+   produced frame carries serial 1.  (Bodies are at most 1023 bytes here and in the harness: the
+   length field of the header has 10 bits, a longer body cannot be framed; the property's "all custom
+   bodies" is read as "all bodies that fit a frame".) *)
+Theorem C20_serial_progression : forall ver phone cs k c1 b1 c2 b2,
+  digits phone -> (length phone <= maxlen ver)%nat ->
+  nth_error (effective ver cs) k = Some (c1, b1) -> nth_error (effective ver cs) (S k) = Some (c2, b2) ->
+  c1 < 65536 -> c2 < 65536 -> (length b1 <= 1023)%nat -> (length b2 <= 1023)%nat ->
+  exists t f1 f2 m1 m2,
+    with_header ver phone = Ok t /\
+    nth_error (somes (run_calls t cs)) k = Some f1 /\ nth_error (somes (run_calls t cs)) (S k) = Some f2 /\
+    decode f1 = Ok m1 /\ decode f2 = Ok m2 /\
+    m_serial m2 = (m_serial m1 + 1) mod 65536.
+Proof. exact calls_serial_progression. Qed.
 Print Assumptions C20_serial_progression.
+
+Theorem C20_first_serial : forall ver phone cs c b,
+  digits phone -> (length phone <= maxlen ver)%nat ->
+  nth_error (effective ver cs) 0 = Some (c, b) -> c < 65536 -> (length b <= 1023)%nat ->
+  exists t f m, with_header ver phone = Ok t /\ nth_error (somes (run_calls t cs)) 0 = Some f /\
+    decode f = Ok m /\ m_serial m = 1.
+Proof. exact calls_first_serial. Qed.
+Print Assumptions C20_first_serial.
 
 (* the reply the simulator predicts is, byte for byte, the frame the server's writer sends: for
    every frame [f] of a command that the simulator supports and the server answers, every state of
@@ -80,6 +99,16 @@ Theorem C20_expected_reply : forall t c d q f,
             snd (expected_reply t (c_seq c) f) = Some (wire_bytes w).
 Proof. exact expected_reply_is_server_reply. Qed.
 Print Assumptions C20_expected_reply.
+
+(* the hypotheses of C20_expected_reply hold for EVERY default frame of a reply-bearing command, in
+   every version (and every default body fits a frame): the simulator's own frames are inside the
+   theorem's domain *)
+Theorem C20_default_frames_in_domain : forall ver cmd b m,
+  In ver [V2011; V2013; V2019] -> In cmd sim_reply_ids -> default_body ver cmd = Some b ->
+  m_id m = cmd -> m_ver m = (if ver =? V2019 then 1 else 0) -> m_body m = b ->
+  body_wf m = true /\ auth_too_short m = false /\ (length b <= 1023)%nat.
+Proof. exact default_frames_reply_wf. Qed.
+Print Assumptions C20_default_frames_in_domain.
 
 (* a 2019 authentication too short for its fixed fields is, by design, logged and not answered by
    the server; the simulator predicts no reply for it (after fix f33c7a0) *)
@@ -111,3 +140,16 @@ Print Assumptions C20_tables_agree.
 Example C20_template_checksum_escaped :
   xor_all (template_payload V2013 [7; 5; 0; 9]) = 126 /\ xor_all (template_payload V2013 [7; 8; 0; 7]) = 125.
 Proof. exact example_template_escapes. Qed.
+
+(* a generated frame (a nil call for 0x0104 first: no serial consumed), decoded; and the prediction for
+   it = the frame the server model writes for it, byte for byte *)
+Example C20_generated_frame :
+  exists f m, nth_error (somes (run_calls (sim0 V2013 [7; 5; 0; 9]) [CDefault 0x0104; CDefault 0x0002])) 0 = Some f /\
+    f = [126; 0; 2; 0; 0; 0; 0; 0; 0; 117; 9; 0; 1; 127; 126] /\
+    decode f = Ok m /\ m_id m = 2 /\ m_serial m = 1 /\ phone_of m = [55; 53; 48; 57].
+Proof. exact example_generated_frame. Qed.
+Example C20_expected_reply_instance :
+  let f := [126; 0; 2; 0; 0; 0; 0; 0; 0; 117; 9; 0; 1; 127; 126] in
+  exists r, map wire_bytes (writes (run (dm f))) = [r] /\
+            snd (expected_reply (sim0 V2013 [7; 5; 0; 9]) 0 f) = Some r.
+Proof. exact example_expected_reply. Qed.
